@@ -1,7 +1,12 @@
 // C31: the real hpack.Decoder on generated header blocks, whole and split, under recover().
 //
-//	op     = M=<maxSize>,A=<allowed>,S=<maxStrLen>;<chunk hex>,<chunk hex>,…
-//	result = W:<outcome>#S:<outcome>    outcome = F<name:value:s,…>|E<err>|T<n>,<size>,<max>,<hash>  |  PANIC
+//	op     = M=<maxSize>,A=<allowed>,S=<maxStrLen>[,E=<-|q|d<k>|x<k>>];<chunk hex>,<chunk hex>,…
+//	result = W:<outcome>#S:<outcome>#B:<outcome>#D:<F…|E…>   (whole / chunks / one octet per Write / DecodeFull)
+//	         outcome = F<name:value:s,…>|Enone|T<n>,<size>,<max>,<hash>|N<n1.n2…>  |  F<…>|E<err>|N<…>  |  PANIC
+//
+// Every input buffer is overwritten after the Write that consumed it and the emitted fields are rendered only
+// after Close (late comparison: strings must not alias the caller's buffers).  E models the emit callback of
+// bfe_http2/frame.go: plain, emission off from the start, SetEmitEnabled(false) inside the k-th call, error at the k-th call.
 package main
 
 import (
@@ -237,6 +242,13 @@ func gen(r *vh.Rand) string {
 				v = uint64(r.Intn(a + 1))
 			}
 			blk = append(blk, varint(r, 5, v, 0x20, vm())...)
+			if r.Chance(1, 3) { // shrink then grow (or grow then shrink) in one go
+				w := uint64(r.Intn(a + 1))
+				if r.Bool() {
+					w = uint64(a)
+				}
+				blk = append(blk, varint(r, 5, w, 0x20, vm())...)
+			}
 		default:
 			var n uint
 			var fl byte
@@ -293,15 +305,26 @@ func gen(r *vh.Rand) string {
 		}
 		chunks = append(chunks, rest)
 	}
-	return opLine(m, a, s, chunks)
+	e := "-"
+	switch r.Intn(10) {
+	case 0:
+		e = "q"
+	case 1:
+		e = "d" + strconv.Itoa(r.Intn(4))
+	case 2:
+		e = "x" + strconv.Itoa(r.Intn(4))
+	}
+	return opLineE(m, a, s, e, chunks)
 }
 
-func opLine(m, a, s int, chunks [][]byte) string {
+func opLine(m, a, s int, chunks [][]byte) string { return opLineE(m, a, s, "-", chunks) }
+
+func opLineE(m, a, s int, e string, chunks [][]byte) string {
 	hs := make([]string, len(chunks))
 	for i, c := range chunks {
 		hs[i] = vh.Hex(c)
 	}
-	return fmt.Sprintf("M=%d,A=%d,S=%d;%s", m, a, s, strings.Join(hs, ","))
+	return fmt.Sprintf("M=%d,A=%d,S=%d,E=%s;%s", m, a, s, e, strings.Join(hs, ","))
 }
 
 func tabHash(t hpack.VerifTable) uint32 {
@@ -347,25 +370,37 @@ func errName(err error) string {
 	return "err:other"
 }
 
-func deliver(m, a, s int, chunks [][]byte) (res string) {
-	defer func() {
-		if e := recover(); e != nil {
-			res = "PANIC"
+var errEmit = fmt.Errorf("emit callback error")
+
+func newDecoder(m, a, s int, mode string, fields *[]hpack.HeaderField) *hpack.Decoder {
+	var dec *hpack.Decoder
+	calls := 0
+	k := -1
+	if len(mode) > 1 {
+		k, _ = strconv.Atoi(mode[1:])
+	}
+	dec = hpack.NewDecoder(uint32(m), func(f hpack.HeaderField) error {
+		i := calls
+		calls++
+		if i == k && mode[0] == 'd' {
+			dec.SetEmitEnabled(false)
+			return nil
 		}
-	}()
-	var fields []hpack.HeaderField
-	dec := hpack.NewDecoder(uint32(m), func(f hpack.HeaderField) error { fields = append(fields, f); return nil })
+		if i == k && mode[0] == 'x' {
+			return errEmit
+		}
+		*fields = append(*fields, f)
+		return nil
+	})
 	dec.SetAllowedMaxDynamicTableSize(uint32(a))
 	dec.SetMaxStringLength(s)
-	var err error
-	for _, c := range chunks {
-		if _, err = dec.Write(append([]byte(nil), c...)); err != nil {
-			break
-		}
+	if mode == "q" {
+		dec.SetEmitEnabled(false)
 	}
-	if err == nil {
-		err = dec.Close()
-	}
+	return dec
+}
+
+func renderFields(fields []hpack.HeaderField) string {
 	fs := make([]string, len(fields))
 	for i, hf := range fields {
 		sf := "0"
@@ -374,15 +409,70 @@ func deliver(m, a, s int, chunks [][]byte) (res string) {
 		}
 		fs[i] = vh.Hex([]byte(hf.Name)) + ":" + vh.Hex([]byte(hf.Value)) + ":" + sf
 	}
-	fstr := "-"
-	if len(fs) > 0 {
-		fstr = strings.Join(fs, ",")
+	if len(fs) == 0 {
+		return "-"
 	}
-	if err != nil { // the connection is dead after an error: the table is not observed
-		return fmt.Sprintf("F%s|E%s", fstr, errName(err))
+	return strings.Join(fs, ",")
+}
+
+func errNameE(err error) string {
+	if err == errEmit {
+		return "err:emit"
+	}
+	return errName(err)
+}
+
+func deliver(m, a, s int, mode string, chunks [][]byte) (res string) {
+	defer func() {
+		if e := recover(); e != nil {
+			res = "PANIC"
+		}
+	}()
+	var fields []hpack.HeaderField
+	dec := newDecoder(m, a, s, mode, &fields)
+	var err error
+	var ns []string
+	for _, c := range chunks {
+		buf := append([]byte(nil), c...)
+		var n int
+		n, err = dec.Write(buf)
+		ns = append(ns, strconv.Itoa(n))
+		for i := range buf { // the caller's buffer is reused: nothing may still point into it
+			buf[i] = 0xAA
+		}
+		if err != nil {
+			break
+		}
+	}
+	if err == nil {
+		err = dec.Close()
+	}
+	nstr := "-"
+	if len(ns) > 0 {
+		nstr = strings.Join(ns, ".")
+	}
+	fstr := renderFields(fields) // rendered late, after all buffers were overwritten
+	if err != nil {              // the connection is dead after an error: the table is not observed
+		return fmt.Sprintf("F%s|E%s|N%s", fstr, errNameE(err), nstr)
 	}
 	t := hpack.VerifDecoderTable(dec)
-	return fmt.Sprintf("F%s|E%s|T%d,%d,%d,%d", fstr, errName(err), len(t.Ents), t.Size, t.MaxSize, tabHash(t))
+	return fmt.Sprintf("F%s|E%s|T%d,%d,%d,%d|N%s", fstr, errNameE(err), len(t.Ents), t.Size, t.MaxSize, tabHash(t), nstr)
+}
+
+func decodeFull(m, a, s int, whole []byte) (res string) {
+	defer func() {
+		if e := recover(); e != nil {
+			res = "PANIC"
+		}
+	}()
+	var unused []hpack.HeaderField
+	dec := newDecoder(m, a, s, "-", &unused)
+	buf := append([]byte(nil), whole...)
+	fields, err := dec.DecodeFull(buf)
+	for i := range buf {
+		buf[i] = 0xAA
+	}
+	return fmt.Sprintf("F%s|E%s", renderFields(fields), errNameE(err))
 }
 
 func exec(op string) string {
@@ -391,10 +481,23 @@ func exec(op string) string {
 		return "bad-op"
 	}
 	var m, a, s int
+	mode := "-"
 	for i, kv := range strings.Split(p[0], ",") {
 		f := strings.Split(kv, "=")
-		if len(f) != 2 || i > 2 || f[0] != []string{"M", "A", "S"}[i] {
+		if len(f) != 2 || i > 3 || f[0] != []string{"M", "A", "S", "E"}[i] {
 			return "bad-op"
+		}
+		if i == 3 {
+			mode = f[1]
+			ok := mode == "-" || mode == "q"
+			if !ok && len(mode) > 1 && (mode[0] == 'd' || mode[0] == 'x') {
+				_, err := strconv.ParseUint(mode[1:], 10, 16)
+				ok = err == nil
+			}
+			if !ok {
+				return "bad-op"
+			}
+			continue
 		}
 		v, err := strconv.ParseUint(f[1], 10, 32)
 		if err != nil {
@@ -419,7 +522,16 @@ func exec(op string) string {
 		chunks = append(chunks, b)
 		whole = append(whole, b...)
 	}
-	return "W:" + deliver(m, a, s, [][]byte{whole}) + "#S:" + deliver(m, a, s, chunks)
+	bytewise := make([][]byte, len(whole))
+	for i := range whole {
+		bytewise[i] = whole[i : i+1]
+	}
+	d := "-"
+	if mode == "-" {
+		d = decodeFull(m, a, s, whole)
+	}
+	return "W:" + deliver(m, a, s, mode, [][]byte{whole}) + "#S:" + deliver(m, a, s, mode, chunks) +
+		"#B:" + deliver(m, a, s, mode, bytewise) + "#D:" + d
 }
 
 // Pre: every split point (and byte-by-byte delivery) of fixed blocks: the RFC 7541 C.3/C.4/C.5/C.6 request and
@@ -433,6 +545,8 @@ func pre(emit func(string), thorough bool) {
 		"4803333032580770726976617465611d4d6f6e2c203231204f637420323031332032303a31333a323120474d546e1768747470733a2f2f7777772e6578616d706c652e636f6d",
 		"488264025885aec3771a4b6196d07abe941054d444a8200595040b8166e082a62d1bff6e919d29ad171863c78f0b97c8e9ae82ae43d3",
 		"0085003fffffff8130", "008207ff8130", "0081008130", "0081ff8130", "3fe11f", "203fe11f82",
+		// RFC 7541 4.2: size updates after a field / at the end of the block / shrink then grow
+		"8220", "82203fe11f", "400161016220be", "4001610162203fe11fbe", "20400161016282be3fe11f", "3f213fe11f40016101623f21be",
 	}
 	for _, h := range blocks {
 		b, _ := vh.UnHex(h)
